@@ -1010,3 +1010,181 @@ Proof.
   - split; [constructor|]. intros p. cbn [st0 st_reg st_order]. unfold registered. rewrite nget_nempty.
     split; [intros []|discriminate].
 Qed.
+
+(* ------------------------------------------------------------------ exactness: only reachable
+   objects and root-flagged entries are ever marked (the model does not over-approximate) *)
+Section Sound.
+  Variable h : heap.
+  Variable rg : registry.
+  Variables (minptr maxptr : N).
+  Variable tls : list contents.
+  Variable stack : list word.
+
+  Definition justified (q : word) : Prop :=
+    registered rg q = true /\ (is_root rg q = true \/ reach h rg tls stack q).
+  Definition all_justified (m : marks) : Prop := forall q, marked m q = true -> justified q.
+  Definition hands_justified (c : contents) : Prop :=
+    forall q, pts h rg c q -> registered rg q = true -> justified q.
+
+  Lemma justified_closed p c : justified p -> nget p h = Some c -> hands_justified c.
+  Proof.
+    intros [Hp [Hr|Hr]] Hc q Hq Hreg; split; auto; right.
+    - eapply reach_root; eauto.
+    - eapply reach_step; eauto.
+  Qed.
+
+  Lemma all_justified_setmark w m : justified w -> all_justified m -> all_justified (setmark w m).
+  Proof.
+    intros Hw Hm q Hq. destruct (N.eq_dec q w) as [->|Hne]; [exact Hw|].
+    rewrite marked_setmark_other in Hq by assumption. auto.
+  Qed.
+
+  Definition rec_sound (rec : contents -> marks -> outcome marks) : Prop :=
+    forall c m m', rec c m = Ok m' -> hands_justified c -> all_justified m -> all_justified m'.
+
+  Lemma fold_o_inv {A} (f : A -> marks -> outcome marks) (l : list A) :
+    (forall a m m', In a l -> f a m = Ok m' -> all_justified m -> all_justified m') ->
+    forall m m', fold_o f l m = Ok m' -> all_justified m -> all_justified m'.
+  Proof.
+    induction l as [|a l IH]; intros Hf m m' H Hm.
+    - inversion H; subst. exact Hm.
+    - rewrite fold_o_cons in H. apply bind_ok in H. destruct H as (m1 & H1 & H2).
+      eapply IH; [|exact H2|].
+      + intros; eapply Hf; eauto. simpl. auto.
+      + eapply Hf; eauto. simpl. auto.
+  Qed.
+
+  Section Level.
+    Variable rec : contents -> marks -> outcome marks.
+    Hypothesis Hrec : rec_sound rec.
+
+    Lemma descend_sound w m m' :
+      justified w -> all_justified m -> descend h rec w (setmark w m) = Ok m' -> all_justified m'.
+    Proof.
+      intros Hw Hm H. unfold descend in H. destruct (nget w h) as [c|] eqn:Hc; [|discriminate].
+      eapply Hrec; [exact H| |].
+      - eapply justified_closed; eauto.
+      - apply all_justified_setmark; assumption.
+    Qed.
+
+    Lemma mark_item_sound w m m' :
+      (registered rg w = true -> justified w) -> all_justified m ->
+      mark_item h rg minptr maxptr rec w m = Ok m' -> all_justified m'.
+    Proof.
+      intros Hw Hm H. unfold mark_item in H.
+      destruct (prefilter minptr maxptr w); [|inversion H; subst; exact Hm].
+      destruct (registered rg w) eqn:Hr; [|inversion H; subst; exact Hm].
+      destruct (marked m w); [inversion H; subst; exact Hm|].
+      eapply descend_sound; eauto.
+    Qed.
+
+    Lemma mark_and_recurse_sound p m m' :
+      (registered rg p = true -> justified p) ->
+      (registered rg p = false -> forall c, nget p h = Some c -> hands_justified c) ->
+      all_justified m -> mark_and_recurse true h rg minptr maxptr rec p m = Ok m' -> all_justified m'.
+    Proof.
+      intros H1 H2 Hm H. unfold mark_and_recurse in H. destruct (registered rg p) eqn:Hr.
+      - eapply mark_item_sound; eauto.
+      - unfold descend in H. destruct (nget p h) as [c|] eqn:Hc; [|discriminate].
+        eapply Hrec; eauto.
+    Qed.
+
+    Lemma trace_with_sound : rec_sound (trace_with true h rg minptr maxptr rec).
+    Proof.
+      intros c. induction c as [ws|es IH|ps|] using contents_ind'; intros m m' H Hc Hm; cbn [trace_with] in H.
+      - eapply fold_o_inv; [|exact H|exact Hm].
+        intros a m0 m0' Ha H0 Hm0. eapply mark_item_sound; [|exact Hm0|exact H0].
+        intros Hr. apply Hc; [apply pts_word; exact Ha|exact Hr].
+      - eapply fold_o_inv; [|exact H|exact Hm].
+        intros a m0 m0' Ha H0 Hm0. rewrite Forall_forall in IH. eapply (IH a Ha); [exact H0| |exact Hm0].
+        intros q Hq Hr. apply Hc; [eapply pts_elem; eauto|exact Hr].
+      - eapply fold_o_inv; [|exact H|exact Hm].
+        intros a m0 m0' Ha H0 Hm0. eapply mark_and_recurse_sound; [| |exact Hm0|exact H0].
+        + intros Hr. apply Hc; [apply pts_item; assumption|exact Hr].
+        + intros Hr c0 Hc0 q Hq Hqr. apply Hc; [eapply pts_raw; eauto|exact Hqr].
+      - inversion H; subst. exact Hm.
+    Qed.
+  End Level.
+
+  Lemma trace_sound : forall fuel, rec_sound (trace true h rg minptr maxptr fuel).
+  Proof.
+    induction fuel as [|f IH].
+    - intros c m m' H. discriminate.
+    - cbn [trace]. apply trace_with_sound. exact IH.
+  Qed.
+
+  Lemma mark_sound_lemma fuel order m' :
+    mark true true h rg minptr maxptr fuel order tls stack nempty = Ok m' -> all_justified m'.
+  Proof.
+    intros H. unfold mark in H.
+    assert (H0 : all_justified nempty) by (intros q Hq; rewrite marked_nempty in Hq; discriminate).
+    destruct order as [|o0 ord'] eqn:Eo; [inversion H; subst; exact H0|]. rewrite <- Eo in *. clear Eo o0 ord'.
+    set (rec := trace true h rg minptr maxptr fuel) in *.
+    assert (Hrec : rec_sound rec) by apply trace_sound.
+    apply bind_ok in H. destruct H as (m1 & H1 & H). apply bind_ok in H. destruct H as (m2 & H2 & H3).
+    assert (J1 : all_justified m1).
+    { eapply fold_o_inv; [|exact H1|exact H0].
+      intros a m0 m0' Ha Hf Hm0. eapply trace_with_sound; [exact Hrec|exact Hf| |exact Hm0].
+      intros q Hq Hr. split; [exact Hr|]. right. eapply reach_tls; eauto. }
+    assert (J2 : all_justified m2).
+    { eapply fold_o_inv; [|exact H2|exact J1].
+      intros a m0 m0' Ha Hf Hm0. unfold root_step in Hf.
+      destruct (is_root rg a) eqn:Hr; simpl in Hf; [|inversion Hf; subst; exact Hm0].
+      destruct (marked m0 a); simpl in Hf; [inversion Hf; subst; exact Hm0|].
+      eapply descend_sound; [exact Hrec| |exact Hm0|exact Hf].
+      split; [apply is_root_registered; assumption|auto]. }
+    eapply fold_o_inv; [|exact H3|exact J2].
+    intros a m0 m0' Ha Hf Hm0. eapply mark_item_sound; [exact Hrec| |exact Hm0|exact Hf].
+    intros Hr. split; [exact Hr|]. right. apply reach_stack. exact Ha.
+  Qed.
+End Sound.
+
+(* marked = reachable or root-flagged, exactly *)
+Theorem mark_exact_thm : forall h rg minptr maxptr order tls stack fuel m',
+  range_ok rg minptr maxptr -> order_ok rg order ->
+  mark true true h rg minptr maxptr fuel order tls stack nempty = Ok m' ->
+  forall q, marked m' q = true <->
+            registered rg q = true /\ (is_root rg q = true \/ reach h rg tls stack q).
+Proof.
+  intros h rg minptr maxptr order tls stack fuel m' Hr Ho Hm q. split.
+  - intros Hq. eapply mark_sound_lemma; eauto.
+  - intros [Hq [Hroot|Hreach]].
+    + (* a root-flagged entry is marked by the root pass *)
+      unfold mark in Hm. destruct order as [|o0 ord'] eqn:Eo.
+      * destruct Ho as [_ Hin]. apply Hin in Hq. destruct Hq.
+      * rewrite <- Eo in *. clear Eo o0 ord'.
+        set (rec := trace true h rg minptr maxptr fuel) in *.
+        assert (Hrec : rec_ok h rg rec) by (apply trace_ok; assumption).
+        apply bind_ok in Hm. destruct Hm as (m1 & H1 & Hm). apply bind_ok in Hm. destruct Hm as (m2 & H2 & H3).
+        assert (R1 : forall a m0 m0', In a order -> root_step h rg rec a m0 = Ok m0' ->
+                       step_ok h rg m0 m0' /\ (is_root rg a = true -> marked m0' a = true))
+          by (intros a m0 m0' _ Ha; eapply root_step_ok; eauto).
+        assert (R2 : forall (a : word) m0 m0', (is_root rg a = true -> marked m0 a = true) -> sub m0 m0' ->
+                       (is_root rg a = true -> marked m0' a = true))
+          by (intros a m0 m0' Ha Hs Hr0; apply Hs; auto).
+        destruct (fold_o_ok h rg _ _ order R1 R2 _ _ H2) as [S2 Q2].
+        assert (K1 : forall a m0 m0', In a stack -> mark_item h rg minptr maxptr rec a m0 = Ok m0' ->
+                       step_ok h rg m0 m0' /\ True)
+          by (intros a m0 m0' _ Ha; split; [eapply mark_item_ok; eauto|exact I]).
+        destruct (fold_o_ok h rg _ (fun _ _ => True) stack K1 (fun _ _ _ _ _ => I) _ _ H3) as [[S3 _] _].
+        apply S3. apply Q2; [|exact Hroot]. destruct Ho as [_ Hin]. apply Hin. exact Hq.
+    + eapply mark_complete_thm; eauto.
+Qed.
+
+(* the model's collector is exact: it frees precisely the registered, non-root, unreachable objects *)
+Theorem collect_exact_thm : forall h rg minptr maxptr order tls stack fuel rg' fin,
+  range_ok rg minptr maxptr -> order_ok rg order ->
+  collect true true h rg minptr maxptr fuel order tls stack = Ok (rg', fin) ->
+  forall p, In p fin <-> registered rg p = true /\ is_root rg p = false /\ ~ reach h rg tls stack p.
+Proof.
+  intros h rg minptr maxptr order tls stack fuel rg' fin Hr Ho Hc p.
+  unfold collect in Hc. apply bind_ok in Hc. destruct Hc as (m' & Hm & Hs). inversion Hs as [Hs'].
+  destruct (sweep_spec rg order m' rg' fin Hs') as (F & _ & _).
+  pose proof (mark_exact_thm h rg minptr maxptr order tls stack fuel m' Hr Ho Hm p) as E.
+  rewrite F. split.
+  - intros (Hin & Hreg & Hroot & Hmk). split; [exact Hreg|]. split; [exact Hroot|].
+    intros Hreach. assert (marked m' p = true) by (apply E; auto). congruence.
+  - intros (Hreg & Hroot & Hn). split; [apply Ho; exact Hreg|]. split; [exact Hreg|]. split; [exact Hroot|].
+    destruct (marked m' p) eqn:Hmk; [|reflexivity].
+    apply E in Hmk. destruct Hmk as [_ [Hx|Hx]]; [congruence|contradiction].
+Qed.
